@@ -508,7 +508,7 @@ fn instances(ctx: &RunCtx, format: Format) -> Vec<Instance> {
     let fleets = [1, 3];
     let depot_xy = [(0, 0), (4, 3)];
     let mut out = vec![];
-    let max_customers = ctx.tier.pick(3, 4);
+    let max_customers = ctx.tier.pick(3, 8);
     // a customer template = (coord idx, demand idx, window idx, service idx)
     let templates: Vec<(usize, usize, usize, usize)> = {
         let mut t = vec![];
